@@ -9,6 +9,8 @@ import SpecterModel.C17.Drv
 import SpecterModel.C19.Drv
 import SpecterModel.C20.Drv
 import SpecterModel.C21.Drv
+import SpecterModel.C22.Drv
+import SpecterModel.C23.Drv
 import SpecterModel.C24.Drv
 import SpecterModel.C25.Drv
 import SpecterModel.C26.Drv
@@ -18,9 +20,11 @@ import SpecterModel.C29.Drv
 import SpecterModel.C30.Drv
 import SpecterModel.C31.Drv
 import SpecterModel.C32.Drv
+import SpecterModel.C33.Drv
 import SpecterModel.C34.Drv
 import SpecterModel.C35.Drv
 import SpecterModel.C36.Drv
+import SpecterModel.C37.Drv
 import SpecterModel.C38.Drv
 import SpecterModel.C39.Drv
 import SpecterModel.C43.Drv
@@ -29,6 +33,7 @@ import SpecterModel.C45.Drv
 import SpecterModel.C46.Drv
 import SpecterModel.C47.Drv
 import SpecterModel.C49.Drv
+import SpecterModel.C50.Drv
 import SpecterModel.C51.Drv
 
 def main (args : List String) : IO UInt32 := do
@@ -44,6 +49,8 @@ def main (args : List String) : IO UInt32 := do
   | ["C19"] => do Specter.C19.main; return 0
   | ["C20"] => do Specter.C20.main; return 0
   | ["C21"] => do Specter.C21.main; return 0
+  | ["C22"] => do Specter.C22.main; return 0
+  | ["C23"] => do Specter.C23.main; return 0
   | ["C24"] => do Specter.C24.main; return 0
   | ["C25"] => do Specter.C25.main; return 0
   | ["C26"] => do Specter.C26.main; return 0
@@ -53,9 +60,11 @@ def main (args : List String) : IO UInt32 := do
   | ["C30"] => do Specter.C30.main; return 0
   | ["C31"] => do Specter.C31.main; return 0
   | ["C32"] => do Specter.C32.main; return 0
+  | ["C33"] => do Specter.C33.main; return 0
   | ["C34"] => do Specter.C34.main; return 0
   | ["C35"] => do Specter.C35.main; return 0
   | ["C36"] => do Specter.C36.main; return 0
+  | ["C37"] => do Specter.C37.main; return 0
   | ["C38"] => do Specter.C38.main; return 0
   | ["C39"] => do Specter.C39.main; return 0
   | ["C43"] => do Specter.C43.main; return 0
@@ -64,5 +73,6 @@ def main (args : List String) : IO UInt32 := do
   | ["C46"] => do Specter.C46.main; return 0
   | ["C47"] => do Specter.C47.main; return 0
   | ["C49"] => do Specter.C49.main; return 0
+  | ["C50"] => do Specter.C50.main; return 0
   | ["C51"] => do Specter.C51.main; return 0
   | _ => do IO.eprintln "usage: modeld <property id>"; return 2
